@@ -654,6 +654,8 @@ pub fn main(opts: &Opts) -> ! {
     let acc = Mutex::new(Acc { counters: Counters::default(), failures: vec![], distinct: BTreeSet::new(), samples: vec![], cases: 0 });
     let stop = AtomicBool::new(false);
     let deadline = Some(t0 + std::time::Duration::from_secs_f64(budget));
+    let seed = opts.seed;
+    set_watch(Watch { property: "C08", limit_s: 300, describe: Box::new(move |i| format!("writer/parser cases of the matrix {:?}", gen_matrix(seed, i).to_alist())) });
     let done = par_map(n, opts.threads, deadline, &stop, |i| {
         let m = gen_matrix(opts.seed, i);
         let other = gen_matrix(opts.seed, i + 1);
